@@ -245,6 +245,13 @@ def check_spec(desc: tuple) -> Dict[str, Any]:
             raw = plain(proc.raw_inputs)
             if raw != snapshot:
                 violate('raw-inputs-differ', {'got': raw, 'given': snapshot})
+            else:
+                # ... and stay as given when the caller goes on using its dictionary (e.g. for the next process)
+                caller['zz_later'] = 1
+                for key in list(snapshot):
+                    caller[key] = 'overwritten-later'
+                if plain(proc.raw_inputs) != snapshot:
+                    violate('raw-inputs-alias-the-callers-dictionary', {'got': plain(proc.raw_inputs), 'given': snapshot})
             # read-only at every declared namespace level
             for path, level in declared_levels(desc, proc.inputs):
                 before = plain(level)
